@@ -6,6 +6,7 @@ import (
 
 	"github.com/shaardie/clemens/pkg/move"
 	"github.com/shaardie/clemens/pkg/position"
+	"github.com/shaardie/clemens/pkg/types"
 	"verifharness/common"
 	"verifharness/poslib"
 )
@@ -125,7 +126,41 @@ func gameRun(cases []string, obs, oracle *common.Out) {
 				fail("C09", "after op %d (%s): hash %x but the same position loaded from FEN has %x", step, op, p.ZobristHash, q.ZobristHash)
 			}
 		}
+		// distinctness: a position and its twins that differ in exactly one hashed component
+		// (en-passant file, one castling right, side to move) must hash differently
+		twins := func(step int, op string) {
+			if poslib.NaiveInv(p) != "" {
+				return
+			}
+			full := int(p.Ply)/2 + 1
+			mk := func(side types.Color, castling, ep int) (uint64, bool) {
+				q, err := position.NewFromFen(poslib.SimpleFen(&p.PiecesBoard, side, castling, ep, int(p.HalfMoveClock), full))
+				if err != nil {
+					return 0, false
+				}
+				return q.ZobristHash, true
+			}
+			c, e := int(p.Castling), int(p.EnPassant)
+			if e != 64 {
+				if h, ok := mk(p.SideToMove, c, 64); ok && h == p.ZobristHash {
+					fail("C09", "after op %d (%s): same hash %x with and without the en-passant square %d", step, op, h, e)
+				}
+			}
+			for bit := 1; bit <= 8; bit <<= 1 {
+				if c&bit != 0 {
+					if h, ok := mk(p.SideToMove, c&^bit, e); ok && h == p.ZobristHash {
+						fail("C09", "after op %d (%s): same hash %x with and without castling right %d", step, op, h, bit)
+					}
+				}
+			}
+			if e == 64 {
+				if h, ok := mk(types.SwitchColor(p.SideToMove), c, e); ok && h == p.ZobristHash {
+					fail("C09", "after op %d (%s): same hash %x for both sides to move", step, op, h)
+				}
+			}
+		}
 		check(0, "start")
+		twins(0, "start")
 		for i, op := range f[1:] {
 			before := *p
 			res := common.Protect(func() string {
@@ -154,6 +189,9 @@ func gameRun(cases []string, obs, oracle *common.Out) {
 			}
 			sb.WriteString(" | " + poslib.PosLine(p))
 			check(i+1, op)
+			if i%3 == 0 || p.EnPassant != 64 {
+				twins(i+1, op)
+			}
 			if op == "unnull" && i >= 1 && f[i] == "null" {
 				// f[1:][i-1] == "null": state two ops ago must be restored exactly
 			}
